@@ -619,6 +619,110 @@ def r_reject_shrink(rep, f, only=None, positive=False):
         rep.sample(dict(rule="R-REJECT-SHRINK", fn=fn, cases=[{k: str(v) for k, v in r.items() if k != "span"} for r in res]))
 
 
+def r_retry_floor(rep, f):
+    """R-REJECT-SHRINK shows that a rejected attempt leaves a smaller step behind; termination under repeated rejection then
+    rests on the step reaching the underflow exit.  That argument needs the trial step to stay what the rejection made it:
+    a statement between the loop head and the stages that RAISES the trial step (`if h < hmin { h = hmin }`, `h = h.max(hmin)`)
+    undoes the shrink, and the same attempt is repeated for ever when it keeps failing (a right-hand side that is NaN beyond a
+    point, with min_step set).  Rule: every raising assignment to a variable that flows into the abscissa of the stage
+    evaluations sits in a branch that also contains a give-up exit (break / return with a non-success status)."""
+    ODE = "ivp::IVP::ode"
+    n_sites = 0
+    for mod, ty in SOLVERS:
+        fn = solve_fn(mod, ty)
+        body = f.body(fn)
+        main = main_loop_of(body)
+        if main is None:
+            continue
+        key = "R-RETRY-FLOOR:%s" % fn
+
+        def strip(e):
+            while isinstance(e, dict) and e.get("k") in ("DropTemps", "Paren"):
+                e = e["e"]
+            return e
+        # locals that carry the trial step into the time argument of a stage evaluation: followed through copies, sums with
+        # the abscissa and products with a sign or a constant (NOT through the controller's factors, min/max, powers)
+        signlike = {l["pat"]["id"] for l in tast.find(body["body"], lambda z: z.get("k") == "Let" and z["pat"].get("k") == "PBind" and z.get("init") is not None
+                                                      and tast.contains(z["init"], lambda q: q.get("k") == "MethodCall" and q.get("name") == "signum"))}
+
+        def constlike(e):
+            e = strip(e)
+            return e.get("k") == "Lit" or (e.get("k") == "Path" and (e.get("dk") in ("Const", "AssocConst") or e.get("id") in signlike)) or (e.get("k") == "Cast") \
+                or (e.get("k") == "Unary" and constlike(e["e"])) or (e.get("k") == "Index" and e["e"].get("k") == "Path" and e["e"].get("dk") in ("Const", "AssocConst"))
+
+        def carriers(e, out):
+            e = strip(e)
+            k = e.get("k")
+            if k == "Path" and e.get("res") == "local" and (e.get("ty") or "") in ("f64", "f32"):
+                out.add(e["id"])
+            elif k == "Binary" and e.get("op") in ("Add", "Sub"):
+                carriers(e["l"], out)
+                carriers(e["r"], out)
+            elif k == "Binary" and e.get("op") == "Mul":
+                if constlike(e["l"]):
+                    carriers(e["r"], out)
+                if constlike(e["r"]):
+                    carriers(e["l"], out)
+            elif k == "Unary":
+                carriers(e["e"], out)
+            elif k == "MethodCall" and e.get("name") == "abs":
+                carriers(e["recv"], out)
+        timey = set()
+        for c in tast.find(main, lambda z: z.get("k") == "MethodCall" and z.get("def") == ODE and z.get("args")):
+            carriers(c["args"][0], timey)
+        for _ in range(5):
+            for st in tast.find(main, lambda z: (z.get("k") == "Let" and z.get("init") is not None and z["pat"].get("k") == "PBind") or (z.get("k") == "Assign" and z["l"].get("k") == "Path")):
+                tid = st["pat"]["id"] if st["k"] == "Let" else st["l"].get("id")
+                if tid in timey:
+                    carriers(st["init"] if st["k"] == "Let" else st["r"], timey)
+        timey -= signlike
+        raises = []      # (node whose branch must contain the exit, assignment, description)
+
+        def conjuncts(c):
+            c = strip(c)
+            if c.get("k") == "Binary" and c.get("op") == "And":
+                return conjuncts(c["l"]) + conjuncts(c["r"])
+            return [c]
+        for node, parents in tast.find_with_parents(main, lambda z: z.get("k") == "If"):
+            for c in conjuncts(node["cond"]):
+                if c.get("k") != "Binary" or c.get("op") not in ("Lt", "Le", "Gt", "Ge"):
+                    continue
+                small, big = (c["l"], c["r"]) if c["op"] in ("Lt", "Le") else (c["r"], c["l"])
+                small, big = strip(small), strip(big)
+                if small.get("k") != "Path" or small.get("res") != "local" or small.get("id") not in timey:
+                    continue
+                bt = tast.render(big)
+                for a_ in tast.find(node["then"], lambda z: z.get("k") == "Assign" and z["l"].get("k") == "Path" and z["l"].get("id") == small["id"]):
+                    if tast.render(strip(a_["r"])) == bt:
+                        raises.append((node["then"], a_, "`if %s { %s = %s }`" % (tast.render(c)[:40], small.get("name"), bt[:30]), parents))
+        for a_, parents in tast.find_with_parents(main, lambda z: z.get("k") in ("Assign", "Let")):
+            tgt = a_["l"] if a_["k"] == "Assign" else a_["pat"]
+            src = strip(a_["r"] if a_["k"] == "Assign" else (a_.get("init") or {}))
+            tid = tgt.get("id") if tgt.get("k") in ("Path", "PBind") else None
+            if tid not in timey or not isinstance(src, dict) or src.get("k") != "MethodCall" or src.get("name") != "max" or (src.get("ty") or "") not in ("f64", "f32"):
+                continue
+            ops = [strip(src["recv"])] + [strip(x) for x in src.get("args", [])]
+            if any(o.get("k") == "Path" and o.get("id") in timey for o in ops) and not all(o.get("k") == "Lit" or (o.get("k") == "Path" and o.get("id") in timey) for o in ops):
+                encl = next((p_ for p_ in reversed(parents) if p_.get("k") == "Block"), main)
+                raises.append((encl, a_, "`%s`" % tast.render(a_)[:60], parents))
+        if not raises:
+            rep.ok("R-RETRY-FLOOR", key, "no statement raises the trial step between a rejection and the next attempt", nontrivial=False)
+            continue
+        for region, a_, what, parents in raises:
+            n_sites += 1
+            # raising the step of an ACCEPTED path (the controller's growth) is not a retry: only sites that a rejected
+            # iteration reaches before the stages count - those not nested in the accepting branch
+            gives_up = tast.contains(region, lambda z: z.get("k") in ("Break", "Return") and z is not a_)
+            k2 = "%s:%s" % (key, re.sub(r"[^A-Za-z0-9_<>=. ]", "", what)[:40].strip().replace(" ", "_"))
+            if gives_up:
+                rep.ok("R-RETRY-FLOOR", k2, "%s: the branch that raises the trial step also contains a give-up exit" % what)
+            else:
+                rep.violation("R-RETRY-FLOOR", k2, "%s raises the trial step on the way to the next attempt and has no give-up exit: after a rejection the shrunken step is put back "
+                              "to the floor and the same attempt repeats for as long as it keeps failing (min_step set and a right-hand side that fails beyond a point: the run never "
+                              "ends with the default unlimited step budget)" % what, a_.get("sp"))
+    return n_sites
+
+
 def run(rep, tier):
     f = facts.load("default")
     rep.rule("R-NAN-REJECT", "NaN-taint with Rust's float semantics: on every accepted path, each stage value the new state depends on forces (through NaN-propagating operations only; "
@@ -633,6 +737,8 @@ def run(rep, tier):
     r_reject_shrink(rep, f)
     rep.rule("R-CLAMP-ORDER", "every f64::clamp(lo, hi) a solver evaluates has provably ordered bounds (constants, a symmetric pair -m, m, or hi - lo >= 0 symbolically): clamp panics when lo > hi")
     r_clamp_order(rep, f)
+    rep.rule("R-RETRY-FLOOR", "no statement puts a shrunken trial step back up (if h < hmin { h = hmin }, h = h.max(hmin)) on the way from a rejection to the next attempt unless its branch contains a give-up exit: otherwise R-REJECT-SHRINK's decreasing measure is undone and a persistently failing attempt repeats for ever")
+    r_retry_floor(rep, f)
     rep.explanation = ("Structural clauses of termination for the five error-controlled solvers: rejecting cycles strictly shrink the step (also for a NaN norm), every cycle meets an "
                        "underflow exit and consumes the step budget, and a NaN right-hand side cannot be accepted. Together these make the loop well-founded on |h| down to rounding level. "
                        "Not decided: absence of panics from indexing/arithmetic, 'bounded work' as a number, blow-up detection.")
